@@ -7,6 +7,7 @@ import (
 	"fmt"
 	"go/types"
 	pathpkg "path"
+	filepathpkg "path/filepath"
 	"strconv"
 	"strings"
 
@@ -595,6 +596,13 @@ func (w *World) registerIntrinsics() {
 		e.requireStub(mkInRe(p, clean), "path.Clean argument is a rooted path without empty or dot segments")
 		n := mkLen(p)
 		return mkIte(mkAnd(mkGt(n, mkInt(1)), mkSuffixOf(mkStr("/"), p)), mkSubstr(p, mkInt(0), mkSub(n, mkInt(1))), p)
+	}
+	I["path/filepath.Clean"] = func(e *Exec, fn *ssa.Function, a []Value) Value {
+		if sv, ok := str(a[0]).strVal(); ok {
+			return mkStr(filepathpkg.Clean(sv))
+		}
+		e.unsupported("filepath.Clean on a symbolic path")
+		return nil
 	}
 	I["regexp.QuoteMeta"] = func(e *Exec, fn *ssa.Function, a []Value) Value {
 		if sv, ok := str(a[0]).strVal(); ok {
